@@ -3,7 +3,7 @@
    Proved: the lexer mechanism (code-level model of rsql/lexer.go) and the round trip of the reference
    grammar.  NOT proved: totality of the hand-written Go parser over all byte strings -- that part is
    tested (fuzzing under recover and a 2 s limit), see bin/props.d/C11.json. *)
-From SV Require Import Model.Lexer Model.Stmt Model.MatchWithin Spec.LexSpec Proofs.LexerProofs Proofs.LexerLayout Proofs.StmtProofs Proofs.StmtLiteral Proofs.MatchWithinProofs.
+From SV Require Import Model.Lexer Model.Stmt Model.MatchWithin Spec.LexSpec Spec.MatchPatternSpec Proofs.LexerProofs Proofs.LexerLayout Proofs.StmtProofs Proofs.StmtLiteral Proofs.MatchWithinProofs Proofs.MatchPatternProofs.
 From Coq Require Import String.
 Local Open Scope N_scope.
 
@@ -151,6 +151,65 @@ Theorem C11_within_quoted_agrees : forall ip fp dot su U un,
 Proof. exact within_quoted_agrees. Qed.
 Print Assumptions C11_within_quoted_agrees.
 
+(* ---- MATCH_RECOGNIZE ... PATTERN: every quantifier form is read with the written bounds
+   (Model/MatchWithin.v p_quant, the reference reading of tryMRQuantifier / parseMRBounded) ----
+   {n,m} for every n <= m -- n = m ({2,2}) and n = 0 ({0,3}, {0,0}) included -- whatever the digits'
+   spelling (leading zeros) and whatever follows, as long as that is not the reluctant mark *)
+Theorem C11_quant_bounded_as_written : forall lb dn cm dm rb r,
+  all_digits dn = true -> all_digits dm = true -> digits_val 0 dn <= digits_val 0 dm ->
+  hd_is (ty_is T_Question) r = false ->
+  p_quant (mkTok T_LBrace lb :: mkTok T_Number dn :: mkTok T_Comma cm :: mkTok T_Number dm :: mkTok T_RBrace rb :: r)
+  = Some (Some (digits_val 0 dn, Some (digits_val 0 dm), true), r).
+Proof. exact quant_bounded_as_written. Qed.
+Print Assumptions C11_quant_bounded_as_written.
+
+(* {n,n} and {n} are one quantifier (in every context, greedy or reluctant) *)
+Theorem C11_quant_equal_bounds : forall lb dn cm dm rb r,
+  all_digits dn = true -> all_digits dm = true -> digits_val 0 dn = digits_val 0 dm ->
+  p_quant (mkTok T_LBrace lb :: mkTok T_Number dn :: mkTok T_Comma cm :: mkTok T_Number dm :: mkTok T_RBrace rb :: r)
+  = p_quant (mkTok T_LBrace lb :: mkTok T_Number dn :: mkTok T_RBrace rb :: r).
+Proof. exact quant_equal_bounds. Qed.
+Print Assumptions C11_quant_equal_bounds.
+
+(* {n} = exactly n, {n,} = at least n, ? = {0,1}, * = {0,}, + = {1,} *)
+Theorem C11_quant_exact_as_written : forall lb dn rb r,
+  all_digits dn = true -> hd_is (ty_is T_Question) r = false ->
+  p_quant (mkTok T_LBrace lb :: mkTok T_Number dn :: mkTok T_RBrace rb :: r)
+  = Some (Some (digits_val 0 dn, Some (digits_val 0 dn), true), r).
+Proof. exact quant_exact_as_written. Qed.
+Print Assumptions C11_quant_exact_as_written.
+
+Theorem C11_quant_at_least_as_written : forall lb dn cm rb r,
+  all_digits dn = true -> hd_is (ty_is T_Question) r = false ->
+  p_quant (mkTok T_LBrace lb :: mkTok T_Number dn :: mkTok T_Comma cm :: mkTok T_RBrace rb :: r)
+  = Some (Some (digits_val 0 dn, None, true), r).
+Proof. exact quant_at_least_as_written. Qed.
+Print Assumptions C11_quant_at_least_as_written.
+
+Theorem C11_quant_symbols_as_written : forall v r, hd_is (ty_is T_Question) r = false ->
+  p_quant (mkTok T_Question v :: r) = Some (Some (0, Some 1, true), r)
+  /\ p_quant (mkTok T_Asterisk v :: r) = Some (Some (0, None, true), r)
+  /\ p_quant (mkTok T_Plus v :: r) = Some (Some (1, None, true), r).
+Proof. exact quant_symbols_as_written. Qed.
+Print Assumptions C11_quant_symbols_as_written.
+
+(* the reluctant mark: a '?' written after ANY quantifier that is read (greedy) with [r] left over gives
+   the same bounds, reluctant, with the same [r] left over *)
+Theorem C11_quant_reluctant : forall toks lo hi r q,
+  p_quant toks = Some (Some (lo, hi, true), r) ->
+  exists pre, toks = pre ++ r /\ p_quant (pre ++ mkTok T_Question q :: r) = Some (Some (lo, hi, false), r).
+Proof. exact quant_reluctant. Qed.
+Print Assumptions C11_quant_reluctant.
+
+(* ---- the whole PATTERN ( ... ) body: every way to WRITE a row pattern (Spec/MatchPatternSpec.v w_alt: variables,
+   sequence, alternation, groups, PERMUTE, exclusion, every quantifier spelling ? * + {n} {n,} {n,m} with n <= m,
+   greedy or reluctant, on any atom, nested to any depth) is read back as that pattern's tree, and the reading
+   stops right after the closing parenthesis -- for all patterns, all token texts of the punctuation, all that follows *)
+Theorem C11_pattern_written_is_read : forall p l c r,
+  w_alt p l -> punct T_RParen c = true -> p_pattern (l ++ c :: r) = Some (p, r).
+Proof. exact pattern_written_is_read. Qed.
+Print Assumptions C11_pattern_written_is_read.
+
 (* ---- non-vacuity ---- *)
 (* SELECT DISTINCT a, avg(t) AS x FROM s LEFT JOIN m AS mm ON i = j WHERE a > 1 AND n LIKE 'LIMIT 5'
    GROUP BY a, TumblingWindow('5s') HAVING x > 2 WITH (TIMESTAMP='ts') ORDER BY x DESC LIMIT 3 *)
@@ -231,3 +290,48 @@ Example C11_example_within :
   /\ go_duration (bs "1.5s"%string) = option_map Z.of_N (within_count (bs "1.5"%string) (bs "SECONDS"%string))
   /\ mr_ref (tokens (bs "SELECT a FROM t WHERE note = 'MATCH_RECOGNIZE ('"%string)) = Some None.
 Proof. vm_compute. split; [eexists; repeat split; reflexivity | repeat split; reflexivity]. Qed.
+
+(* PATTERN: the quantifier forms on variables and groups, {2,2} = {2}, reluctant marks, PERMUTE, exclusion
+   (also right after an unquantified variable), alternation -- read as a tree; the hypotheses of the quantifier
+   theorems are satisfiable; an inverted range {3,2} is not of the documented grammar *)
+Definition ex_pat (p : string) : option (option pat) :=
+  option_map (fun o => match o with Some sp => mr_tree sp | None => None end)
+    (mr_ref (tokens (bs "SELECT * FROM s MATCH_RECOGNIZE (ORDER BY ts PATTERN ("%string ++ bs p ++ bs ") DEFINE A AS v > 0)"%string))).
+Example C11_example_pattern :
+  let A := PSym (bs "A"%string) in let B := PSym (bs "B"%string) in let C := PSym (bs "C"%string) in
+  ex_pat "A{2,2} B" = Some (Some (PSeq [PRep A 2 (Some 2) true; B]))
+  /\ ex_pat "A { 02 } B" = ex_pat "A{2,2} B"
+  /\ ex_pat "A{0,0}? (B | C A){1,}?" = Some (Some (PSeq [PRep A 0 (Some 0) false; PRep (PGroup (PAlt [B; PSeq [C; A]])) 1 None false]))
+  /\ ex_pat "A?? B*? C+?" = Some (Some (PSeq [PRep A 0 (Some 1) false; PRep B 0 None false; PRep C 1 None false]))
+  /\ ex_pat "A {- B -} permute(C, A B?)" = Some (Some (PSeq [A; PExcl B; PPermute [C; PSeq [A; PRep B 0 (Some 1) true]]]))
+  /\ ex_pat "A{3,2} B" = None
+  /\ all_digits (bs "02"%string) = true /\ digits_val 0 (bs "02"%string) = 2.
+Proof. vm_compute. repeat split; reflexivity. Qed.
+
+(* the hypothesis of C11_pattern_written_is_read is satisfiable: the tokens of  A{2,2} (B|C)+?  are a way to write
+   the tree  sequence [A repeated 2..2 greedy; group (B or C) repeated 1.. reluctant] *)
+Example C11_example_pattern_written :
+  let A := PSym (bs "A"%string) in let B := PSym (bs "B"%string) in let C := PSym (bs "C"%string) in
+  let tree := PSeq [PRep A 2 (Some 2) true; PRep (PGroup (PAlt [B; C])) 1 None false] in
+  exists l, w_alt tree l /\ l = tokens (bs "A{2,2} (B|C)+?"%string)
+            /\ p_pattern (tokens (bs "A{2,2} (B|C)+?) DEFINE"%string)) = Some (tree, tokens (bs "DEFINE"%string)).
+Proof.
+  intros A B C tree.
+  pose (tk := fun ty (s : string) => mkTok ty (bs s)).
+  pose (n2 := tk T_Number "2"%string).
+  assert (WA : w_quantified (PRep A 2 (Some 2) true)
+                 ([tk T_Ident "A"%string] ++ [tk T_LBrace "{"%string; n2; tk T_Comma ","%string; n2; tk T_RBrace "}"%string])).
+  { apply W_rep; [exact (W_var (tk T_Ident "A"%string) eq_refl)|].
+    apply WQ_greedy. apply WB_between; reflexivity. }
+  assert (WI : w_alt (PAlt [B; C]) ([tk T_Ident "B"%string] ++ (tk T_Pipe "|"%string :: [tk T_Ident "C"%string] ++ []))).
+  { apply (W_alt B _ [C]).
+    - apply W_seq1, W_plain. exact (W_var (tk T_Ident "B"%string) eq_refl).
+    - apply W_more_cons; [reflexivity | | apply W_more_nil]. apply W_seq1, W_plain. exact (W_var (tk T_Ident "C"%string) eq_refl). }
+  eexists. split; [|split].
+  - eapply (W_alt tree _ [] []); [|apply W_more_nil]. apply W_seqn. apply W_item_cons; [exact WA|].
+    apply W_item1. apply W_rep.
+    + apply (W_group _ _ (tk T_LParen "("%string) (tk T_RParen ")"%string) WI); reflexivity.
+    + apply (WQ_reluctant 1 None [tk T_Plus "+"%string] (tk T_Question "?"%string)); [apply WB_plus|]; reflexivity.
+  - vm_compute. reflexivity.
+  - vm_compute. reflexivity.
+Qed.
